@@ -1167,6 +1167,18 @@ pub fn gen_c20(cx: &mut Ctx) {
             calls.push((s("essential"), vec![Arg::F(Val::E(tree.clone()))]));
         }
         calls.push((s("implied"), vec![Arg::F(x.clone()), Arg::F(y.clone())]));
+        // shared nodes and sparse assignments: equal arguments, equal results (error payloads included)
+        if round % 3 == 2 {
+            let sh = crate::gen::shared_exprs();
+            let e = rng.pick(&sh).clone();
+            let mut v = BTreeMap::new();
+            for n in ["a", "b", "c", "d"] {
+                if rng.below(2) == 0 {
+                    v.insert(s(n), rng.coin());
+                }
+            }
+            calls.push((s("evalc.own"), vec![Arg::F(Val::E(e)), Arg::V(v)]));
+        }
         // near-identical texts (layout, letter case, inside and outside braces): a memo with a lossy key
         // answers one of them with the other's result, depending on which came first
         if round % 4 == 1 {
@@ -1282,7 +1294,15 @@ pub fn gen_c20(cx: &mut Ctx) {
         let r2d = if watched { format!("{}|{}", r2, debug_of(op, args)) } else { r2.clone() };
         let after: Vec<String> = if watched { args.iter().map(observe).collect() } else { vec![] };
         // equal arguments, equal results: the three ownership variants of one call must coincide
-        let variants_equal = if op.ends_with(".own") {
+        let variants_equal = if op == "evalc.own" {
+            match (&args[0], &args[1]) {
+                (Arg::F(Val::E(x)), Arg::V(v)) => {
+                    let [p, q] = crate::ops::evalc_own(x, v);
+                    p == q
+                }
+                _ => true,
+            }
+        } else if op.ends_with(".own") {
             match (&args[0], &args[1]) {
                 (Arg::F(Val::E(x)), Arg::F(Val::E(y))) => {
                     let [a, b, c] = crate::ops::own_variants(op, x, y);
